@@ -542,7 +542,7 @@ Qed.
 
 (* the code before the repair: item k = "first enabled component at array index >= k" *)
 Lemma unfixed_items_refuted :
-  let vs := [mkVar 1 [false; true; true] [] [1; 1; 1]%Z []] in
+  let vs := [mkVar 1 [false; true; true] [] [1; 1; 1]%Z [] false] in
   flat_map (item_evaluates_unfixed vs) (build_items (active_vars 0 vs)) = [(0, 1); (0, 1)] /\
   active_pairs (active_vars 0 vs) = [(0, 1); (0, 2)].
 Proof. vm_compute. split; reflexivity. Qed.
@@ -576,8 +576,9 @@ Proof. intros s s' H l _. cbn [act comp_item]. apply H. cbn [reads comp_item]. l
 
 Lemma wf_collect p : wfi (collect_item p).
 Proof.
-  intros s s' H l _. cbn [act collect_item]. apply zsum_map_ext. intros c Hc.
-  rewrite (H (LCvc (fst p) c)); [reflexivity|]. cbn [reads collect_item]. apply in_map; auto.
+  intros s s' H l _. unfold collect_item in *. destruct (v_scripted (snd p)); cbn [act reads] in *.
+  - apply zsum_map_ext. intros c Hc. apply H. apply in_map; auto.
+  - apply zsum_map_ext. intros c Hc. rewrite (H (LCvc (fst p) c)); [reflexivity|]. apply in_map; auto.
 Qed.
 
 Lemma bias_x_ext bs s s' i : (forall l, In l (map LX (b_vars bs)) -> s l = s' l) -> i < length (b_vars bs) ->
@@ -638,11 +639,15 @@ Qed.
 (* the collection phase of variable v is independent of the components of every other variable *)
 Lemma indep_collect_comp (p : nat * var) (q : nat * nat) : fst p <> fst q -> indepi (collect_item p) (comp_item q).
 Proof.
-  intros Hne. unfold indep. cbn [writes reads comp_item collect_item].
-  split; [|split].
-  - intros l [Hl|[]] [Hl'|[]]; subst; discriminate.
-  - intros l [Hl|[]] [Hl'|[]]; subst; discriminate.
-  - intros l [Hl|[]] Hl'; subst. rewrite in_map_iff in Hl'. destruct Hl' as (c & E & _). inversion E. auto.
+  intros Hne. unfold indep, collect_item. destruct (v_scripted (snd p)); cbn [writes reads comp_item].
+  - split; [|split].
+    + intros l [Hl|[]] [Hl'|[]]; subst; discriminate.
+    + intros l [Hl|[]] [Hl'|[]]; subst; discriminate.
+    + intros l [Hl|[]] Hl'; subst. rewrite in_map_iff in Hl'. destruct Hl' as (c & E & _). inversion E. auto.
+  - split; [|split].
+    + intros l [Hl|[]] [Hl'|[]]; subst; discriminate.
+    + intros l [Hl|[]] [Hl'|[]]; subst; discriminate.
+    + intros l [Hl|[]] Hl'; subst. rewrite in_map_iff in Hl'. destruct Hl' as (c & E & _). inversion E. auto.
 Qed.
 
 (* distinct biases write their own energy / forces and read only variable values *)
@@ -1035,7 +1040,7 @@ Qed.
 (* the cached variant: two variables with timeStepFactor 2 and 3, one component each: at step 3 only variable 1 is awake but
    the list still names variable 0 (one item before, one item now) *)
 Lemma rebuild_items_cached_refuted :
-  let c := mkCfg [mkVar 2 [true] [] [1%Z] []; mkVar 3 [true] [] [1%Z] []] [] false false [] in
+  let c := mkCfg [mkVar 2 [true] [] [1%Z] [] false; mkVar 3 [true] [] [1%Z] [] false] [] false false [] in
   items_history rebuild_items [] c 0 4 = [[(0, 0); (1, 0)]; []; [(0, 0)]; [(1, 0)]] /\
   items_history rebuild_items_cached [] c 0 4 = [[(0, 0); (1, 0)]; []; [(0, 0)]; [(0, 0)]].
 Proof. vm_compute. split; reflexivity. Qed.
@@ -1046,7 +1051,7 @@ Lemma error_step_paths_differ :
     step_error c t = true /\
     runi (serial_cvc_items_err c t) s l <> runi (smp_cvc_items_err c t) s l.
 Proof.
-  exists (mkCfg [mkVar 1 [true] [false] [1%Z] []; mkVar 1 [true] [] [1%Z] []] [] false false []), 0,
+  exists (mkCfg [mkVar 1 [true] [false] [1%Z] [] false; mkVar 1 [true] [] [1%Z] [] false] [] false false []), 0,
          (fun l => match l with LIn 1 0 => 5%Z | _ => 0%Z end), (LX 1).
   split; [reflexivity|]. vm_compute. discriminate.
 Qed.
